@@ -1136,6 +1136,25 @@ impl<'a> Ctx<'a> {
                 ));
             }
         }
+        // nothing runs that was not given: neither on the command line nor by prepend / append
+        {
+            let mut given: std::collections::BTreeSet<&str> = Default::default();
+            for m in self.sc.docs.iter().filter(|d| d.main) {
+                for (_, t) in exec_list(self.sc, m) {
+                    given.insert(t.nonce.as_str());
+                }
+            }
+            for n in self.facts.delivered.keys() {
+                if !given.contains(n.as_str()) {
+                    out.push(v(
+                        "C20",
+                        "executed-not-given",
+                        Some(n),
+                        format!("test {} was handed to a shell, but its document is not part of this run", n),
+                    ));
+                }
+            }
+        }
         for (d, j) in self.obs.docs.iter().zip(judgements.iter()) {
             let main = &self.sc.docs[d.doc];
             let list = exec_list(self.sc, main);
